@@ -161,7 +161,9 @@ def oracle_bfd(c, o):
 class Prop:
     pid = 'C03'
     props_file = 'Props/C03.v'
-    required_theorems = ['bfd_decode_total', 'bfd_accepts_iff_wellformed']
+    required_theorems = ['bfd_decode_total', 'bfd_accepts_iff_wellformed',
+                         'rtr_decode_no_panic', 'rtr_decode_progress', 'rtr_complete_frame_decided',
+                         'rtr_need_only_if_incomplete', 'rtr_fragmentation_invariant']
     correspondence_name = ('Model/Bfd.v bfd_decode vs packet/src/bfd.rs Message::decode '
                            '(harness/hx-packet, debug and release builds)')
     rule = ('a case is one byte string (BFD) ...; non-trivial when the decoder gets past the length checks; '
